@@ -76,6 +76,12 @@ var variants = []variant{
 	}, true},
 	{"twocase", func(h string) [][2]string { return [][2]string{{h, "forged-A"}, {strings.ToUpper(h), "forged-B"}} }, false},
 	{"empty", func(h string) [][2]string { return [][2]string{{strings.ToLower(h), ""}} }, true},
+	// HTTP/1.1 only: the client declares the name a connection option (hop-by-hop), without / with a value of its own.
+	// What a proxy strips on behalf of the Connection header is the client's field, never its own
+	{"conn-option", func(h string) [][2]string { return [][2]string{{"Connection", "keep-alive, " + h}} }, false},
+	{"conn-option+value", func(h string) [][2]string {
+		return [][2]string{{"Connection", strings.ToLower(h)}, {h, "forged-hop"}}
+	}, false},
 }
 
 type reqCase struct {
@@ -90,6 +96,9 @@ type reqCase struct {
 // two DIFFERENT hellos that carry the SAME client random (fixed randomness): nothing the client chooses identifies a connection
 var helloChrome = bubble.Hello{Name: "chrome120", ID: &utls.HelloChrome_120, ALPN: []string{"h2", "http/1.1"}, SNI: "localhost", Rand: bubble.FixedRand{}}
 var helloChromeH1 = bubble.Hello{Name: "firefox105-h1", ID: &utls.HelloFirefox_105, ALPN: []string{"http/1.1"}, SNI: "localhost", Rand: bubble.FixedRand{}}
+
+var helloPred = bubble.Hello{Name: "safari-pred", ID: &utls.HelloSafari_16_0, ALPN: []string{"h2", "http/1.1"}, SNI: "localhost"}
+var helloIntruder = bubble.Hello{Name: "go-noalpn", SNI: "x.example"}
 
 // runCases runs a batch of requests on one h1 and one h2 connection of a fresh stack.
 // prefill: the connections first carry a request with many distinct, long, uncommon header names (per-connection
@@ -108,8 +117,48 @@ func runCases(t *testing.T, rep *ev.Report, set string, inj []reverseproxy.Heade
 	res := bubble.Run(t, func() {
 		st := bubble.NewStack(bubble.StackOpts{Injectors: inj})
 		defer st.Shutdown()
-		c1 := st.Connect("h1", nil, helloChromeH1)
-		c2 := st.Connect("h2", nil, helloChrome)
+		extra := 0
+		if prefill {
+			// a predecessor: an h2 connection with its own hello, SETTINGS and WINDOW_UPDATE that is served and gone before
+			// the connections of the matrix exist (whatever the proxy keeps per connection has been used once)
+			p := st.Connect("predecessor", nil, helloPred)
+			synctest.Wait()
+			if done, err := p.Handshake(); !done || err != nil {
+				rep.HarnessError("handshake predecessor: done=%v err=%v", done, err)
+				return
+			}
+			p.Write([]byte(h2wire.Preface))
+			p.Write(h2wire.Settings(h2wire.Setting{ID: 2, Val: 0}))
+			p.Write(h2wire.WindowUpdate(0, 4242))
+			p.SendH2(1, bubble.Req{Path: "/v-v-v-pred", Host: "localhost"})
+			synctest.Wait()
+			// the predecessor's own request is judged too (default sets): it is itself the successor of the connections of
+			// the executions that ran in this process before
+			if rs := st.Backend.ByPath("/v-v-v-pred"); len(rs) == 1 && expectDefault {
+				refP := &h2fpref.State{}
+				refP.OnSettings([]h2fpref.Setting{{ID: 2, Val: 0}})
+				refP.OnWindowUpdate(4242)
+				refP.OnHeaders([]string{":method", ":scheme", ":authority", ":path"}, nil)
+				if v := rs[0].Values("X-HTTP2-Fingerprint"); len(v) != 1 || !refP.Equal(v[0], -1) {
+					rep.Violate(map[string]any{"kind": "wrong-value", "proto": "h2", "injector_outcome": "value", "set": set, "header": "X-HTTP2-Fingerprint", "who": "predecessor"},
+						map[string]any{"set": set, "backend_values": v, "want": refP.String(-1)},
+						"set %s: the first connection of this execution (SETTINGS{2:0}, WINDOW_UPDATE 4242) was forwarded with X-HTTP2-Fingerprint %q, its own frames give %q (connections of earlier executions in this process used WINDOW_UPDATE 983041)", set, v, refP.String(-1))
+				}
+			}
+			p.Close()
+			synctest.Wait()
+			extra++
+		}
+		// (after a predecessor the h2 connection is accepted first: it is the one that could inherit anything h2-specific)
+		var c1, c2 *bubble.Client
+		if prefill {
+			c2 = st.Connect("h2", nil, helloChrome)
+			synctest.Wait()
+			c1 = st.Connect("h1", nil, helloChromeH1)
+		} else {
+			c1 = st.Connect("h1", nil, helloChromeH1)
+			c2 = st.Connect("h2", nil, helloChrome)
+		}
 		synctest.Wait()
 		for _, c := range []*bubble.Client{c1, c2} {
 			if done, err := c.Handshake(); !done || err != nil {
@@ -135,12 +184,22 @@ func runCases(t *testing.T, rep *ev.Report, set string, inj []reverseproxy.Heade
 			synctest.Wait()
 			c1.TakeH1Responses()
 			col.Add(c2.Dec, c2.TakeFrames())
-			if st.Backend.Count() != 2 {
+			if st.Backend.Count() != 2+extra {
 				rep.HarnessError("prefill requests not forwarded (%d)", st.Backend.Count())
 				return
 			}
 		}
 		for i, rc := range cases {
+			if prefill && i%10 == 5 {
+				// an intruder: another client (a shorter hello, another protocol) completes its handshake and a request
+				// while the connections of the matrix stay open; their later requests are still theirs
+				in := st.Connect(fmt.Sprintf("intruder-%d", i), nil, helloIntruder)
+				synctest.Wait()
+				if done, err := in.Handshake(); done && err == nil {
+					in.SendH1(bubble.Req{Path: "/v-v-v-intruder", Host: "localhost"})
+					synctest.Wait()
+				}
+			}
 			before := st.Backend.Count()
 			path := rc.path + fmt.Sprintf("-n%d", i)
 			var cl *bubble.Client
